@@ -43,12 +43,21 @@ theorem typeStage_np (g : Option T) (s : T) (ms : List (Str × Exp)) (n : Nat) :
   · split <;> simp
   · simp
 
+theorem taggedString_np (cfg : Cfg) (g s : Option T) (p lex : Str) (lang? dir? : Option Str) (n : Nat) :
+    taggedString cfg g s p lex lang? dir? n ≠ .panic := by
+  unfold taggedString
+  simp only []
+  repeat' split
+  all_goals simp
+
 theorem decodeStringValue_np (cfg : Cfg) (g s : Option T) (p dt0 lex : Str) (atLang atDir : Option Exp) (n : Nat) :
     decodeStringValue cfg g s p dt0 lex atLang atDir n ≠ .panic := by
   unfold decodeStringValue
   simp only []
   repeat' split
-  all_goals simp
+  all_goals first
+    | exact taggedString_np _ _ _ _ _ _ _ _
+    | simp
 
 theorem decodeValuePrim_np (cfg : Cfg) (g s : Option T) (p dt0 : Str) (atLang atDir : Option Exp) (v : PVal) (jt : JText) (n : Nat)
     (h1 : v ≠ .nil) (h2 : jt ≠ .panics) : decodeValuePrim cfg g s p dt0 atLang atDir v jt n ≠ .panic := by
